@@ -46,6 +46,7 @@ CONFIGS = {
     "tet2_211": ("tet2", np.diag([2, 1, 1]), (1,), 1.05, 3, 1.05, None, True),
     "tet2_211v": ("tet2", np.diag([2, 1, 1]), (1,), 1.05, 3, 1.05, 1, True),
     "hcp221": ("hcp", np.diag([2, 2, 1]), (), 1.01, 3, 1.01, None, True),
+    "hcp221p": ("hcp", np.diag([2, 2, 1]), (), 1.01, 2, 1.01, None, True),      # pair clusters only (fast)
     "sc311j": ("sc", np.diag([3, 1, 1]), (), 1.01, 3, 1.01, None, True),
     "hcp221v": ("hcp", np.diag([2, 2, 1]), (), 1.01, 3, 1.01, 2, True),
     "sc332": ("sc", np.diag([3, 3, 2]), (), 1.01, 3, 1.01, None, True),
